@@ -136,6 +136,27 @@ Fixpoint vp_inv_b (d : dist) (t : vpt) : bool :=
       vp_inv_b d l && vp_inv_b d r
   end.
 
+(* what buildFromPoints does beyond vp_inv (checked on dumped real trees; tie only, no theorem uses it):
+   with s = upper - lower items at a node, median = (upper + lower) / 2 puts s/2 - 1 items into the inner
+   child, and the threshold is the distance to items[median] = the closest item of the outer part; a
+   node without children keeps the constructor's threshold 0 *)
+Fixpoint vp_shape_b (d : dist) (t : vpt) : bool :=
+  match t with
+  | E => true
+  | Nd i thr l r =>
+      match l, r with
+      | E, E => thr =? 0
+      | _, _ =>
+          let s := S (length (items l) + length (items r)) in
+          Nat.eqb (length (items l)) (Nat.div s 2 - 1) &&
+          match items r with
+          | [] => false
+          | x :: xs => thr =? fold_right (fun y m => Z.min (d i y) m) (d i x) xs
+          end &&
+          vp_shape_b d l && vp_shape_b d r
+      end
+  end.
+
 (* the tree holds exactly the samples 0..N-1, each once *)
 Definition vp_holds_b (N : nat) (t : vpt) : bool :=
   nodup_b (items t) && Nat.eqb (length (items t)) N &&
